@@ -1,9 +1,724 @@
-//! Seeded template generator for Mamba programs (placeholder, replaced below).
+//! Seeded template generator for Mamba programs, aimed at the shapes C12's quantifier
+//! names: type unions, several classes, several parents, exception hierarchies, generic
+//! collections, shadowing.  Every choice comes from the scenario PRNG.
+//!
+//! Programs need not be accepted by the checker: a rejected program must be rejected under
+//! every configuration, which is checked all the same.
+
 use crate::scen::SrcFile;
 use crate::util::Rng;
 use std::collections::BTreeSet;
 
-pub fn generate(rng: &mut Rng, _fenced: &BTreeSet<String>) -> Vec<SrcFile> {
-    let n = rng.range(1, 9);
-    vec![SrcFile { path: "a.mamba".into(), text: format!("def a := {n}\n") }]
+#[derive(Clone, Debug, PartialEq, Eq)]
+pub enum Ty {
+    Int,
+    Str,
+    Bool,
+    Float,
+    Class(usize),
+}
+
+#[derive(Clone, Debug)]
+pub struct Method {
+    pub name: String,
+    pub params: Vec<(String, Ty)>,
+    pub ret: Ty,
+}
+
+#[derive(Clone, Debug)]
+pub struct ClassInfo {
+    pub name: String,
+    /// constructor arguments (header): (name, type, is_field (`def`), has default)
+    pub args: Vec<(String, Ty, bool, bool)>,
+    pub fields: Vec<(String, Ty)>,
+    pub methods: Vec<Method>,
+    pub parents: Vec<usize>,
+    pub is_exception: bool,
+}
+
+#[derive(Clone, Debug)]
+pub struct FunInfo {
+    pub name: String,
+    pub params: Vec<(String, Ty, bool)>,
+    pub ret: Ty,
+    pub raises: Vec<usize>,
+}
+
+pub struct Gen<'a> {
+    pub rng: &'a mut Rng,
+    pub classes: Vec<ClassInfo>,
+    pub funs: Vec<FunInfo>,
+    pub vars: Vec<(String, Ty)>,
+    pub out: String,
+    pub fenced: &'a BTreeSet<String>,
+    counter: usize,
+    /// prefix for every generated top-level and member name (keeps files of a project disjoint)
+    pub prefix: String,
+}
+
+const WORDS: &[&str] = &["alpha", "beta", "gamma", "delta", "omega", "kappa", "sigma", "theta", "zeta", "iota"];
+
+impl<'a> Gen<'a> {
+    pub fn new(rng: &'a mut Rng, fenced: &'a BTreeSet<String>, prefix: &str) -> Gen<'a> {
+        Gen { rng, classes: vec![], funs: vec![], vars: vec![], out: String::new(), fenced, counter: 0, prefix: prefix.to_string() }
+    }
+
+    fn fresh(&mut self, stem: &str) -> String {
+        self.counter += 1;
+        format!("{}{}{}", self.prefix, stem, self.counter)
+    }
+
+    pub fn ty_name(&self, t: &Ty) -> String {
+        match t {
+            Ty::Int => "Int".into(),
+            Ty::Str => "Str".into(),
+            Ty::Bool => "Bool".into(),
+            Ty::Float => "Float".into(),
+            Ty::Class(i) => self.classes[*i].name.clone(),
+        }
+    }
+
+    fn prim(&mut self) -> Ty {
+        match self.rng.below(10) {
+            0..=3 => Ty::Int,
+            4..=6 => Ty::Str,
+            7..=8 => Ty::Bool,
+            _ => Ty::Float,
+        }
+    }
+
+    fn plain_classes(&self) -> Vec<usize> {
+        (0..self.classes.len()).filter(|&i| !self.classes[i].is_exception).collect()
+    }
+
+    fn any_ty(&mut self) -> Ty {
+        let pc = self.plain_classes();
+        if !pc.is_empty() && self.rng.chance(1, 3) {
+            Ty::Class(*self.rng.pick(&pc))
+        } else {
+            self.prim()
+        }
+    }
+
+    fn lit(&mut self, t: &Ty) -> String {
+        match t {
+            Ty::Int => format!("{}", self.rng.below(100)),
+            Ty::Str => format!("\"{}\"", self.rng.pick(WORDS)),
+            Ty::Bool => if self.rng.chance(1, 2) { "True".into() } else { "False".into() },
+            Ty::Float => format!("{}.{}", self.rng.below(50), self.rng.range(1, 9)),
+            Ty::Class(i) => self.ctor(*i, 0),
+        }
+    }
+
+    fn ctor(&mut self, ci: usize, depth: usize) -> String {
+        let args = self.classes[ci].args.clone();
+        let mut parts = vec![];
+        for (k, (_, t, _, has_default)) in args.iter().enumerate() {
+            // trailing defaulted arguments may be left out
+            if *has_default && k + 1 == args.len() && self.rng.chance(1, 2) {
+                break;
+            }
+            parts.push(self.expr(t, depth + 1));
+        }
+        format!("{}({})", self.classes[ci].name, parts.join(", "))
+    }
+
+    /// all fields of a class including header `def` args and inherited ones
+    fn all_fields(&self, ci: usize) -> Vec<(String, Ty)> {
+        let mut v: Vec<(String, Ty)> = vec![];
+        let c = &self.classes[ci];
+        for (n, t, is_field, _) in &c.args {
+            if *is_field {
+                v.push((n.clone(), t.clone()));
+            }
+        }
+        v.extend(c.fields.iter().cloned());
+        for &p in &c.parents {
+            v.extend(self.all_fields(p));
+        }
+        v
+    }
+
+    fn all_methods(&self, ci: usize) -> Vec<Method> {
+        let c = &self.classes[ci];
+        let mut v = c.methods.clone();
+        for &p in &c.parents {
+            v.extend(self.all_methods(p));
+        }
+        v
+    }
+
+    fn is_subclass(&self, ci: usize, of: usize) -> bool {
+        ci == of || self.classes[ci].parents.iter().any(|&p| self.is_subclass(p, of))
+    }
+
+    pub fn expr(&mut self, t: &Ty, depth: usize) -> String {
+        if depth >= 3 {
+            return self.leaf(t);
+        }
+        let choice = self.rng.below(10);
+        match choice {
+            0..=2 => self.leaf(t),
+            3 | 4 => match t {
+                Ty::Int => {
+                    let op = *self.rng.pick(&["+", "-", "*"]);
+                    format!("{} {} {}", self.expr(&Ty::Int, depth + 1), op, self.expr(&Ty::Int, depth + 1))
+                }
+                Ty::Str => format!("{} + {}", self.expr(&Ty::Str, depth + 1), self.expr(&Ty::Str, depth + 1)),
+                Ty::Bool => match self.rng.below(3) {
+                    0 => format!("{} < {}", self.expr(&Ty::Int, depth + 1), self.expr(&Ty::Int, depth + 1)),
+                    1 => format!("{} and {}", self.expr(&Ty::Bool, depth + 1), self.expr(&Ty::Bool, depth + 1)),
+                    _ => format!("not {}", self.leaf(&Ty::Bool)),
+                },
+                Ty::Float => format!("{} + {}", self.expr(&Ty::Float, depth + 1), self.expr(&Ty::Float, depth + 1)),
+                Ty::Class(_) => self.leaf(t),
+            },
+            5 => {
+                // call of a non-raising function returning t
+                let cands: Vec<usize> = (0..self.funs.len()).filter(|&i| self.funs[i].ret == *t && self.funs[i].raises.is_empty()).collect();
+                if cands.is_empty() {
+                    return self.leaf(t);
+                }
+                let f = self.funs[*self.rng.pick(&cands)].clone();
+                let mut args = vec![];
+                for (k, (_, pt, has_default)) in f.params.iter().enumerate() {
+                    if *has_default && k + 1 == f.params.len() && self.rng.chance(1, 2) {
+                        break;
+                    }
+                    args.push(self.expr(pt, depth + 1));
+                }
+                format!("{}({})", f.name, args.join(", "))
+            }
+            6 | 7 => {
+                // field or method of an object variable
+                let objs: Vec<(String, usize)> = self.vars.iter().filter_map(|(n, vt)| if let Ty::Class(c) = vt { Some((n.clone(), *c)) } else { None }).collect();
+                if objs.is_empty() {
+                    return self.leaf(t);
+                }
+                let (on, oc) = self.rng.pick(&objs).clone();
+                let fields: Vec<(String, Ty)> = self.all_fields(oc).into_iter().filter(|(_, ft)| ft == t).collect();
+                let methods: Vec<Method> = self.all_methods(oc).into_iter().filter(|m| m.ret == *t).collect();
+                if !methods.is_empty() && (fields.is_empty() || self.rng.chance(1, 2)) {
+                    let m = self.rng.pick(&methods).clone();
+                    let args: Vec<String> = m.params.iter().map(|(_, pt)| self.expr(pt, depth + 1)).collect();
+                    format!("{}.{}({})", on, m.name, args.join(", "))
+                } else if !fields.is_empty() {
+                    let (f, _) = self.rng.pick(&fields).clone();
+                    format!("{on}.{f}")
+                } else {
+                    self.leaf(t)
+                }
+            }
+            8 if depth == 0 && *t != Ty::Bool => format!("if {} then {} else {}", self.cond(), self.expr(t, 2), self.expr(t, 2)),
+            8 => self.leaf(t),
+            _ => format!("({})", self.expr(t, depth + 1)),
+        }
+    }
+
+    /// a condition the checker can type: comparison or boolean variable/literal
+    fn cond(&mut self) -> String {
+        match self.rng.below(3) {
+            0 => format!("{} < {}", self.leaf(&Ty::Int), self.leaf(&Ty::Int)),
+            1 => format!("{} > {}", self.leaf(&Ty::Int), self.leaf(&Ty::Int)),
+            _ => self.leaf(&Ty::Bool),
+        }
+    }
+
+    fn leaf(&mut self, t: &Ty) -> String {
+        let cands: Vec<String> = self
+            .vars
+            .iter()
+            .filter(|(_, vt)| match (vt, t) {
+                (Ty::Class(a), Ty::Class(b)) => self.is_subclass(*a, *b),
+                _ => vt == t,
+            })
+            .map(|(n, _)| n.clone())
+            .collect();
+        if !cands.is_empty() && self.rng.chance(1, 2) {
+            return self.rng.pick(&cands).clone();
+        }
+        if let Ty::Class(c) = t {
+            // a subclass instance where a parent is expected
+            let subs: Vec<usize> = self.plain_classes().into_iter().filter(|&s| self.is_subclass(s, *c)).collect();
+            let pick = if subs.is_empty() { *c } else { *self.rng.pick(&subs) };
+            return self.ctor(pick, 2);
+        }
+        self.lit(t)
+    }
+
+    // ------------------------------------------------------------------ declarations
+
+    fn gen_class(&mut self) {
+        let name = {
+            self.counter += 1;
+            format!("{}C{}", capitalise(&self.prefix), self.counter)
+        };
+        let mut info = ClassInfo { name: name.clone(), args: vec![], fields: vec![], methods: vec![], parents: vec![], is_exception: false };
+        // header arguments
+        if self.rng.chance(2, 5) {
+            for k in 0..self.rng.range(1, 3) {
+                let t = self.prim();
+                let is_field = self.rng.chance(2, 3);
+                let has_default = k > 0 && self.rng.chance(1, 3);
+                let n = self.fresh("a");
+                info.args.push((n, t, is_field, has_default));
+            }
+            // defaults only at the end
+            let mut seen_default = false;
+            for a in info.args.iter_mut() {
+                if a.3 {
+                    seen_default = true;
+                } else if seen_default {
+                    a.3 = true;
+                }
+            }
+        }
+        // parents
+        let pc = self.plain_classes();
+        let mut parent_txt = vec![];
+        if !pc.is_empty() && self.rng.chance(1, 2) {
+            let np = if pc.len() >= 2 && self.rng.chance(1, 3) { 2 } else { 1 };
+            let mut cands = pc.clone();
+            self.rng.shuffle(&mut cands);
+            for &p in cands.iter().take(np) {
+                // not two parents where one is an ancestor of the other
+                if info.parents.iter().any(|&q| self.is_subclass(p, q) || self.is_subclass(q, p)) {
+                    continue;
+                }
+                let pa = self.classes[p].args.clone();
+                if pa.is_empty() {
+                    info.parents.push(p);
+                    parent_txt.push(self.classes[p].name.clone());
+                } else {
+                    // parent arguments may only be string literals or identifiers
+                    let mut parts = vec![];
+                    let mut ok = true;
+                    for (_, t, _, _) in pa.iter() {
+                        if let Some((n, _, _, _)) = info.args.iter().find(|(_, at, _, _)| at == t) {
+                            parts.push(n.clone());
+                        } else if *t == Ty::Str {
+                            parts.push(format!("\"{}\"", self.rng.pick(WORDS)));
+                        } else {
+                            ok = false;
+                        }
+                    }
+                    if ok {
+                        info.parents.push(p);
+                        parent_txt.push(format!("{}({})", self.classes[p].name, parts.join(", ")));
+                    }
+                }
+            }
+        }
+        // members
+        let nf = self.rng.below(4) as usize;
+        let nm = self.rng.below(4) as usize;
+        let mut member_lines: Vec<(bool, String)> = vec![];
+        for _ in 0..nf {
+            let t = self.prim();
+            let n = self.fresh("f");
+            let l = self.lit(&t);
+            member_lines.push((false, format!("    def {}: {} := {}", n, self.ty_name(&t), l)));
+            info.fields.push((n, t));
+        }
+        // the class is visible to its own methods only through self; register before bodies
+        let ci = self.classes.len();
+        self.classes.push(info.clone());
+        for _ in 0..nm {
+            let ret = self.prim();
+            let n = self.fresh("m");
+            let mut params = vec![];
+            for _ in 0..self.rng.below(3) {
+                params.push((self.fresh("p"), self.prim()));
+            }
+            // body: expression over parameters, own fields via self
+            let saved = self.vars.clone();
+            self.vars.clear();
+            for (pn, pt) in &params {
+                self.vars.push((pn.clone(), pt.clone()));
+            }
+            let own_fields = self.all_fields(ci);
+            for (fname, ft) in own_fields {
+                self.vars.push((format!("self.{fname}"), ft));
+            }
+            let body = self.expr(&ret, 1);
+            self.vars = saved;
+            let ptxt: Vec<String> = params.iter().map(|(pn, pt)| format!(", {}: {}", pn, self.ty_name(pt))).collect();
+            member_lines.push((true, format!("    def {}(self{}) -> {} => {}", n, ptxt.join(""), self.ty_name(&ret), body)));
+            let m = Method { name: n, params, ret };
+            self.classes[ci].methods.push(m);
+        }
+        if !self.fenced.contains("class_method_before_fields") && self.rng.chance(1, 2) {
+            self.rng.shuffle(&mut member_lines);
+        }
+        let args_txt = if info.args.is_empty() {
+            if self.rng.chance(1, 4) { "()".to_string() } else { String::new() }
+        } else {
+            let parts: Vec<String> = info
+                .args
+                .iter()
+                .map(|(n, t, is_field, has_default)| {
+                    let d = if *has_default { format!(" := {}", self.lit_const(t)) } else { String::new() };
+                    format!("{}{}: {}{}", if *is_field { "def " } else { "" }, n, self.ty_name(t), d)
+                })
+                .collect();
+            format!("({})", parts.join(", "))
+        };
+        let ptxt = if parent_txt.is_empty() { String::new() } else { format!(": {}", parent_txt.join(", ")) };
+        self.out.push_str(&format!("class {}{}{}\n", name, args_txt, ptxt));
+        for (_, l) in &member_lines {
+            self.out.push_str(l);
+            self.out.push('\n');
+        }
+        self.out.push('\n');
+    }
+
+    fn lit_const(&self, t: &Ty) -> String {
+        match t {
+            Ty::Int => "7".into(),
+            Ty::Str => "\"dflt\"".into(),
+            Ty::Bool => "True".into(),
+            Ty::Float => "1.5".into(),
+            Ty::Class(_) => "None".into(),
+        }
+    }
+
+    fn gen_exceptions(&mut self) {
+        let n = self.rng.range(1, 3);
+        let mut made: Vec<usize> = vec![];
+        for _ in 0..n {
+            self.counter += 1;
+            let name = format!("{}Err{}", capitalise(&self.prefix), self.counter);
+            let parent = if !made.is_empty() && self.rng.chance(1, 2) { Some(*self.rng.pick(&made)) } else { None };
+            let ptxt = match parent {
+                Some(p) => format!("{}(msg)", self.classes[p].name),
+                None => "Exception(msg)".to_string(),
+            };
+            self.out.push_str(&format!("class {}(msg: Str): {}\n", name, ptxt));
+            self.classes.push(ClassInfo {
+                name,
+                args: vec![("msg".into(), Ty::Str, false, false)],
+                fields: vec![],
+                methods: vec![],
+                parents: parent.into_iter().collect(),
+                is_exception: true,
+            });
+            made.push(self.classes.len() - 1);
+        }
+        self.out.push('\n');
+        // a raising function and a handled use
+        let k = self.rng.range(1, made.len() as u64) as usize;
+        let mut raised = made.clone();
+        self.rng.shuffle(&mut raised);
+        raised.truncate(k);
+        let fname = self.fresh("r");
+        let ret = if self.rng.chance(1, 2) { Ty::Int } else { Ty::Str };
+        let names: Vec<String> = raised.iter().map(|&e| self.classes[e].name.clone()).collect();
+        self.out.push_str(&format!("def {}(x: Int) -> {} raise [{}] =>\n", fname, self.ty_name(&ret), names.join(", ")));
+        // nested if/else chain as in tests/resource/valid/error/handle.mamba
+        let mut indent = "    ".to_string();
+        for (i, en) in names.iter().enumerate() {
+            self.out.push_str(&format!("{indent}if x < {} then\n{indent}    raise {}(\"{}\")\n{indent}else\n", i * 10, en, self.rng.pick(WORDS)));
+            indent.push_str("    ");
+        }
+        let l = self.lit(&ret);
+        self.out.push_str(&format!("{indent}return {}\n\n", l));
+        self.funs.push(FunInfo { name: fname.clone(), params: vec![("x".into(), Ty::Int, false)], ret: ret.clone(), raises: raised.clone() });
+        // handled use
+        let v = self.fresh("h");
+        self.out.push_str(&format!("def {} := {}({}) handle\n", v, fname, self.rng.below(30)));
+        let mut order = raised.clone();
+        if self.rng.chance(1, 2) {
+            self.rng.shuffle(&mut order);
+        }
+        for &e in &order {
+            let l = self.lit(&ret);
+            if self.rng.chance(1, 2) {
+                self.out.push_str(&format!("    err: {} => {}\n", self.classes[e].name, l));
+            } else {
+                self.out.push_str(&format!("    err: {} =>\n        print(\"{}\")\n        {}\n", self.classes[e].name, self.rng.pick(WORDS), l));
+            }
+        }
+        self.out.push('\n');
+        self.vars.push((v, ret));
+    }
+
+    fn gen_function(&mut self) {
+        let name = self.fresh("fn");
+        let ret = self.any_ty();
+        let mut params: Vec<(String, Ty, bool)> = vec![];
+        for k in 0..self.rng.below(4) {
+            let t = if self.rng.chance(1, 4) { self.any_ty() } else { self.prim() };
+            let has_default = k > 0 && !matches!(t, Ty::Class(_)) && self.rng.chance(1, 3);
+            params.push((self.fresh("p"), t, has_default));
+        }
+        let mut seen = false;
+        for p in params.iter_mut() {
+            if p.2 {
+                seen = true;
+            } else if seen && !matches!(p.1, Ty::Class(_)) {
+                p.2 = true;
+            } else if seen {
+                // a class-typed parameter after a defaulted one: drop the defaults before it
+                seen = false;
+            }
+        }
+        // make defaults a suffix
+        let mut suffix = true;
+        for p in params.iter_mut().rev() {
+            if !p.2 {
+                suffix = false;
+            }
+            if !suffix {
+                p.2 = false;
+            }
+        }
+        let saved = self.vars.clone();
+        self.vars.clear();
+        for (n, t, _) in &params {
+            self.vars.push((n.clone(), t.clone()));
+        }
+        let ptxt: Vec<String> = params
+            .iter()
+            .map(|(n, t, d)| format!("{}: {}{}", n, self.ty_name(t), if *d { format!(" := {}", self.lit_const(t)) } else { String::new() }))
+            .collect();
+        let head = format!("def {}({}) -> {} =>", name, ptxt.join(", "), self.ty_name(&ret));
+        match self.rng.below(4) {
+            0 => {
+                let e = self.expr(&ret, 0);
+                self.out.push_str(&format!("{head} {e}\n\n"));
+            }
+            1 => {
+                let c = self.cond();
+                let a = self.expr(&ret, 1);
+                let b = self.expr(&ret, 1);
+                self.out.push_str(&format!("{head}\n    if {c} then\n        return {a}\n    else\n        return {b}\n\n"));
+            }
+            2 => {
+                let scrut = self.expr(&Ty::Int, 1);
+                let a = self.expr(&ret, 1);
+                let b = self.expr(&ret, 1);
+                let c = self.expr(&ret, 1);
+                self.out.push_str(&format!("{head}\n    match {scrut}\n        1 => {a}\n        2 => {b}\n        _ => {c}\n\n"));
+            }
+            _ => {
+                let t = self.prim();
+                let l = self.expr(&t, 1);
+                let local = self.fresh("l");
+                self.vars.push((local.clone(), t));
+                let e = self.expr(&ret, 1);
+                self.out.push_str(&format!("{head}\n    def {local} := {l}\n    {e}\n\n"));
+            }
+        }
+        self.vars = saved;
+        self.funs.push(FunInfo { name, params, ret, raises: vec![] });
+    }
+
+    fn two_distinct_types(&mut self) -> (Ty, Ty) {
+        let a = self.any_ty();
+        for _ in 0..8 {
+            let b = self.any_ty();
+            if b != a {
+                return (a, b);
+            }
+        }
+        let b = if a == Ty::Int { Ty::Str } else { Ty::Int };
+        (a, b)
+    }
+
+    fn gen_toplevel(&mut self) {
+        let v = self.fresh("v");
+        match self.rng.below(16) {
+            0 | 1 => {
+                let pc = self.plain_classes();
+                if pc.is_empty() {
+                    let t = self.prim();
+                    let e = self.expr(&t, 0);
+                    self.out.push_str(&format!("def {v} := {e}\n"));
+                    self.vars.push((v, t));
+                } else {
+                    let c = *self.rng.pick(&pc);
+                    let e = self.ctor(c, 0);
+                    self.out.push_str(&format!("def {v} := {e}\n"));
+                    self.vars.push((v, Ty::Class(c)));
+                }
+            }
+            2 | 3 => {
+                let t = self.any_ty();
+                let e = self.expr(&t, 0);
+                self.out.push_str(&format!("def {}: {} := {}\n", v, self.ty_name(&t), e));
+                self.vars.push((v, t));
+            }
+            4 | 5 => {
+                // union by if-expression
+                let (a, b) = self.two_distinct_types();
+                let c = self.cond();
+                let ea = self.expr(&a, 1);
+                let eb = self.expr(&b, 1);
+                self.out.push_str(&format!("def {v} := if {c} then {ea} else {eb}\n"));
+            }
+            6 | 7 => {
+                // union by match with 2–4 result types
+                let n = self.rng.range(2, 4) as usize;
+                let mut tys = vec![];
+                for _ in 0..n {
+                    tys.push(self.any_ty());
+                }
+                let scrut = self.expr(&Ty::Int, 1);
+                self.out.push_str(&format!("def {v} := match {scrut}\n"));
+                for (i, t) in tys.iter().enumerate() {
+                    let e = self.expr(t, 1);
+                    if i + 1 == tys.len() {
+                        self.out.push_str(&format!("    _ => {e}\n"));
+                    } else {
+                        self.out.push_str(&format!("    {} => {e}\n", i + 1));
+                    }
+                }
+            }
+            8 => {
+                // mixed literal set / list
+                let n = self.rng.range(2, 4);
+                let mut parts = vec![];
+                for _ in 0..n {
+                    let t = self.any_ty();
+                    parts.push(self.expr(&t, 2));
+                }
+                if self.rng.chance(1, 2) {
+                    self.out.push_str(&format!("def {v} := {{ {} }}\n", parts.join(", ")));
+                } else {
+                    self.out.push_str(&format!("def {v} := [ {} ]\n", parts.join(", ")));
+                }
+                if self.rng.chance(1, 2) {
+                    let i = self.fresh("i");
+                    let w = self.fresh("w");
+                    self.out.push_str(&format!("for {i} in {v} do\n    def {w} := {i}\n"));
+                }
+            }
+            9 => {
+                // nullable
+                let t = self.prim();
+                let e = self.expr(&t, 1);
+                match self.rng.below(3) {
+                    0 => {
+                        self.out.push_str(&format!("def {}: {}? := {}\n", v, self.ty_name(&t), e));
+                        let w = self.fresh("v");
+                        let d = self.lit(&t);
+                        self.out.push_str(&format!("def {w} := {v} ? {d}\n"));
+                    }
+                    1 => {
+                        self.out.push_str(&format!("def {}: {}? := None\n", v, self.ty_name(&t)));
+                        self.out.push_str(&format!("{v} := {e}\n"));
+                    }
+                    _ => {
+                        let c = self.cond();
+                        self.out.push_str(&format!("def {v} := if {c} then {e} else None\n"));
+                    }
+                }
+            }
+            10 => {
+                // homogeneous list, indexing, comprehension
+                let t = if self.rng.chance(1, 2) { Ty::Int } else { Ty::Str };
+                let parts: Vec<String> = (0..self.rng.range(1, 4)).map(|_| self.expr(&t, 2)).collect();
+                self.out.push_str(&format!("def {}: List[{}] := [{}]\n", v, self.ty_name(&t), parts.join(", ")));
+                let w = self.fresh("v");
+                self.out.push_str(&format!("def {w} := {v}[0]\n"));
+                self.vars.push((w, t.clone()));
+                if t == Ty::Int && self.rng.chance(1, 2) {
+                    let u = self.fresh("v");
+                    let x = self.fresh("x");
+                    self.out.push_str(&format!("def {u} := [ {x} * 2 | {x} in {v}, {x} > 0 ]\n"));
+                }
+            }
+            11 => {
+                // tuple and destructuring
+                let (a, b) = self.two_distinct_types();
+                let ea = self.expr(&a, 2);
+                let eb = self.expr(&b, 2);
+                let (x, y) = (self.fresh("t"), self.fresh("t"));
+                self.out.push_str(&format!("def ({x}, {y}) := ({ea}, {eb})\n"));
+                self.vars.push((x, a));
+                self.vars.push((y, b));
+            }
+            12 => {
+                // shadowing: redefine an existing variable with another type
+                if let Some((n, t)) = self.vars.iter().filter(|(n, _)| !n.contains('.')).last().cloned() {
+                    let mut nt = self.prim();
+                    if nt == t {
+                        nt = if t == Ty::Int { Ty::Str } else { Ty::Int };
+                    }
+                    let e = self.expr(&nt, 1);
+                    self.out.push_str(&format!("def {n} := {e}\n"));
+                    self.vars.retain(|(m, _)| *m != n);
+                    self.vars.push((n, nt));
+                } else {
+                    self.out.push_str(&format!("def {v} := 1\n"));
+                    self.vars.push((v, Ty::Int));
+                }
+            }
+            13 => {
+                // loops
+                let i = self.fresh("i");
+                let hi = self.rng.range(1, 9);
+                let acc = self.fresh("v");
+                self.out.push_str(&format!("def {acc} := 0\nfor {i} in 0 ..= {hi} do {acc} := {acc} + {i}\n"));
+                self.vars.push((acc, Ty::Int));
+            }
+            14 => {
+                // f-string over primitive variables
+                let names: Vec<String> = self.vars.iter().filter(|(_, t)| !matches!(t, Ty::Class(_))).map(|(n, _)| n.clone()).collect();
+                if !names.is_empty() {
+                    let a = self.rng.pick(&names).clone();
+                    let b = self.rng.pick(&names).clone();
+                    self.out.push_str(&format!("print(\"{} is {{{}}} and {{{}}}\")\n", self.rng.pick(WORDS), a, b));
+                } else {
+                    self.out.push_str("print(\"nothing\")\n");
+                }
+            }
+            _ => {
+                // statement-level if with definitions in both arms
+                let c = self.cond();
+                let (a, b) = (self.prim(), self.prim());
+                let ea = self.expr(&a, 1);
+                let eb = self.expr(&b, 1);
+                self.out.push_str(&format!("if {c} then\n    def {v} := {ea}\n    print({v})\nelse\n    def {v} := {eb}\n    print({v})\n"));
+            }
+        }
+    }
+
+    pub fn program(&mut self) {
+        // the checker's cost grows steeply with the number of union-producing statements in one
+        // file, so most programs are small and a minority is large
+        let big = self.rng.chance(1, 16);
+        let ncls = match self.rng.below(10) {
+            0 => 0,
+            1..=4 => self.rng.range(1, 2),
+            _ => self.rng.range(2, if big { 6 } else { 4 }),
+        };
+        for _ in 0..ncls {
+            self.gen_class();
+        }
+        if self.rng.chance(1, 3) {
+            self.gen_exceptions();
+        }
+        for _ in 0..self.rng.below(if big { 4 } else { 3 }) {
+            self.gen_function();
+        }
+        let nt = if big { self.rng.range(5, 9) } else { self.rng.range(1, 4) };
+        for _ in 0..nt {
+            self.gen_toplevel();
+        }
+    }
+}
+
+fn capitalise(s: &str) -> String {
+    let mut c = s.chars();
+    match c.next() {
+        Some(f) => f.to_uppercase().collect::<String>() + c.as_str(),
+        None => String::new(),
+    }
+}
+
+pub fn generate(rng: &mut Rng, fenced: &BTreeSet<String>) -> Vec<SrcFile> {
+    let mut g = Gen::new(rng, fenced, "");
+    g.program();
+    vec![SrcFile { path: "a.mamba".into(), text: g.out }]
 }
